@@ -696,6 +696,9 @@ class CFG:
             se = base if skip_edge is None else (lambda n, t, lab: base(n, t, lab) or skip_edge(n, t, lab))
         ss = list(starts) if starts is not None else [self.entry]
         ss = [s for s in ss if not p(s)]
+        for s0 in ss:
+            if s0.kind in exits:
+                return [s0]
         return self.search(ss, lambda n: n.kind in exits, skip_node=p, skip_edge=se, include_start=False)
 
     def dominated_by_branch(self, target: Node, test: Callable[[Node], bool], polarity: str, raising=None) -> list[Node] | None:
